@@ -39,4 +39,8 @@ def run(tier, seed):
                                    "case": {"url": u}, "trace": {"parse": o1, "reparse": o2}})
     for b in oracle_bad[:5]:
         res.disagreements.append({"driver": "ip6-oracle-assumption", "case": b, "model": "assumed", "impl": "violated"})
+    # through a live client/server pair (real GeminiClient with TOFU, real GeminiServerProtocol behind asyncio TLS, 127.0.0.1 and ::1)
+    import livepair
+    livepair.run_echo(res, tier)
+    res.rule += " | plus a live pair over loopback TLS: for IPv4 / bracketed IPv6 / upper-case hosts with explicit port, empty path, queries and reserved characters the server's handler reports the components it parsed"
     return res
